@@ -175,6 +175,28 @@ def run(ctx):
         for k, v in g.shape.items():
             shape[k] = shape.get(k, 0) + v
 
+    # generator validity: every generated ORIGINAL must be well-typed Go (go/parser + go/types in the harness).
+    # A reject is a bug of the generator, never of /repo: it is dropped and counted in the evidence
+    # (with VERIF_DEV=1 it stops the check, for development).
+    gen_cases = [c for c in cases + shape_only if c[3] in ("random", "shape-only")]
+    inp = "".join("gocheck\t%s\t%s\n" % (n, s.encode().hex()) for n, s, _, _ in gen_cases)
+    rc0, out0 = ctx.run([impl, "-repo", vlib.REPO], input=inp, timeout=900)
+    rejected = {}
+    lines0 = out0.splitlines()
+    if rc0 != 0 or len(lines0) != len(gen_cases):
+        ctx.broken("check-machinery(c25:gocheck)", "rc=%d lines=%d cases=%d %s" % (rc0, len(lines0), len(gen_cases), out0[-300:]))
+        return
+    for c, l in zip(gen_cases, lines0):
+        f = l.split("\t")
+        if len(f) < 2 or f[1] != "OK":
+            rejected[c[0]] = (f[2] if len(f) > 2 else "?")[:200]
+    if rejected:
+        ctx.log("GENERATOR-BUG: %d generated original(s) rejected by go/types and dropped: %s" % (len(rejected), list(rejected.items())[:3]))
+        if os.environ.get("VERIF_DEV"):
+            raise RuntimeError("generator produced invalid Go: %s" % list(rejected.items())[:3])
+    cases = [c for c in cases if c[0] not in rejected]
+    shape_only = [c for c in shape_only if c[0] not in rejected]
+
     allc = cases + shape_only
     inp = "".join("style\t%s\t%s\n" % (n, s.encode().hex()) for n, s, _, _ in allc)
     ctx.log("conversion of %d programs" % len(allc))
@@ -239,8 +261,14 @@ def run(ctx):
         o, v = r.get("orig"), r.get("conv")
         hist[c[3]] = hist.get(c[3], 0) + 1
         if isinstance(o, tuple) or o is None:
-            # the ORIGINAL does not build: the generator produced an invalid Go program
-            ctx.broken("correspondence(c25:generator-validity)", "%s: original Go program does not build/run: %s" % (name, o))
+            # the ORIGINAL does not build although go/types accepted it
+            if c[3] in ("random", "shape-only"):
+                rejected[name] = "go build: %s" % (o,)
+                ctx.log("GENERATOR-BUG: original %s does not build and is dropped: %s" % (name, o))
+                if os.environ.get("VERIF_DEV"):
+                    raise RuntimeError("generator produced a Go program that does not build: %s %s" % (name, o))
+            else:
+                ctx.broken("check-machinery(c25:handwritten-original)", "%s: handwritten original does not build/run: %s" % (name, o))
             continue
         if progs[name][1] is None:
             continue   # conversion / XGo compile failure already reported
@@ -267,10 +295,11 @@ def run(ctx):
                    "programs, all three through conversion, XGo compile, go build and run (one batched binary); + %d seeded random "
                    "MiniGo programs for the shape comparison only; non-trivial = distinct source longer than 200 bytes. NOT generated at "
                    "random (deterministic set): binders named like an import or an XGo builtin, lower-case method twins, "
-                   "call statements in for-post position, init functions"
+                   "call statements in for-post position, init functions, a var statement as first statement of main"
                    % (len(G.deterministic()), len(G.RAW), nrand, nshape),
               origin_histogram=hist, construct_histogram=dict(sorted(shape.items())),
-              shape_compared=len(a), behaviour_same=nsame, behaviour_programs=len(cases))
+              shape_compared=len(a), behaviour_same=nsame, behaviour_programs=len(cases),
+              generator_rejected=len(rejected), generator_rejected_samples=dict(list(rejected.items())[:5]))
     ctx.assume("MiniGo semantics: package functions are opaque logged calls; values are ints, strings, one-field objects, closures "
                "(captured by value; no assignment in MiniGo); XGo resolution = local, user function, builtin table; members: exact "
                "name first, then capitalised")
